@@ -34,7 +34,8 @@ COMPONENTS = {
                   "uuid4", "directory listing order", "storage latency"],
 }
 EXPECTED_PROBES = ["empty_output_partition", "empty_output_with_external_tempdir",
-                   "previous_dataset_overwritten", "ge_11_partitions", "missing_rows_present"]
+                   "previous_dataset_overwritten", "ge_11_partitions", "missing_rows_present",
+                   "packed_frame_repacked"]
 
 
 def cases(tier, base_seed):
@@ -74,16 +75,28 @@ def run_case(case):
                                pv["tempdir"], "snappy", overwrite=False, tag="prev")
                     probes["previous_dataset_overwritten"] = 1
                 gdf = gen.build_frame(spec)
+                src = None
+                if case.get("repack"):
+                    rp = case["repack"]
+                    src, _ = e1.do_pack(fs, root, gdf, case["parts"], rp["npartitions"], rp["p"],
+                                        rp["tempdir"], "snappy", overwrite=False, tag="src",
+                                        name="ds_src", lazy=True)
+                    probes["packed_frame_repacked"] = 1
+                    # a plain re-read activates the first geometry column: "the active
+                    # geometry" of the frame being packed is what that frame reports
+                    spec = dict(spec, active=src.geometry.name)
                 res_df, nparts = e1.do_pack(
                     fs, root, gdf, case["parts"], case["npartitions"], case["p"],
-                    case["tempdir"], case["compression"], overwrite=bool(case.get("prev")))
+                    case["tempdir"], case["compression"], overwrite=bool(case.get("prev")),
+                    ddf=src)
         except HarnessError:
             raise
         except Exception as e:  # noqa: BLE001 - any exception of a fault-free run is a finding
             exc = e
         stats = e1.sim_stats(sim, store)
         digest = sim.digest()
-        sig = {"tempdir": case["tempdir"], "prev": bool(case.get("prev"))}
+        sig = {"tempdir": case["tempdir"], "prev": bool(case.get("prev")),
+               "repack": bool(case.get("repack"))}
         if exc is not None:
             import traceback
             tb = traceback.extract_tb(exc.__traceback__)
@@ -161,6 +174,10 @@ def shrink_candidates(case):
     if c.get("prev"):
         d = copy.deepcopy(c)
         d["prev"] = None
+        yield d
+    if c.get("repack"):
+        d = copy.deepcopy(c)
+        d["repack"] = None
         yield d
     n = c["frame"]["n"]
     if c["parts"]["mode"] != "even" or c["parts"]["k"] != 1:
